@@ -559,7 +559,14 @@ def rule_core_rows(ctx: Ctx, rep: Report) -> None:
     rep.floor(rule, 15)
 
 
+def rule_params_forwarded_(ctx: Ctx, rep: Report) -> None:
+    """C08.params_forwarded: a parameter is handed on to callees that have a parameter of the same name (see sigcommon.rule_params_forwarded)."""
+    from rules.sigcommon import rule_params_forwarded
+    rule_params_forwarded(ctx, rep, "C08.params_forwarded", ('btclib.script.engine',), 100)
+
+
 RULES = [
+    ("C08.params_forwarded", rule_params_forwarded_),
     ("C08.opcodes", rule_opcodes),
     ("C08.limits", rule_limits),
     ("C08.flags", rule_flags),
